@@ -326,6 +326,9 @@ def keys(ctx, am):
              ('value', lambda e, s, tr: s['value'] == 'truthy'),
              ('value is None', lambda e, s, tr: s['value'] == 'none'),
              ('attr_name.upper() != %s' % np_, lambda e, s, tr: not s['env']['attr_name'][0]),
+             ('attr_name.upper() == %s' % np_, lambda e, s, tr: s['env']['attr_name'][0]),
+             ('attr_name.upper() != %s.upper()' % np_, lambda e, s, tr: not s['env']['attr_name'][0]),
+             ('attr_name.upper() == %s.upper()' % np_, lambda e, s, tr: s['env']['attr_name'][0]),
              ('attr_ty == _L', tycmp)]
     effects = [('value = _V', lambda e, s, tr: True), ('%s = %s.upper()' % (np_, np_), lambda e, s, tr: True),
                ('metaclass = get_metaclass(%s)' % ip, lambda e, s, tr: True), ('attr_ty = attr_ty.upper()', lambda e, s, tr: True)]
